@@ -479,6 +479,48 @@ func ruleFlushResets(c *eng.Ctx) {
 				if !emitted {
 					continue
 				}
+				if !reset {
+					// the caller may clear the accumulator itself right after every flush inside the loop
+					all, any := true, false
+					eng.Instrs(parent, false, func(in ssa.Instruction) {
+						call, ok := in.(ssa.CallInstruction)
+						if !ok || call.Common().Value != ssa.Value(mc) || !eng.InLoop(call.Block()) {
+							return
+						}
+						any = true
+						cleared := false
+						eng.Instrs(parent, false, func(in2 ssa.Instruction) {
+							if !eng.InstrDominates(call, in2) || !eng.InLoop(in2.Block()) {
+								return
+							}
+							switch x := in2.(type) {
+							case *ssa.Store:
+								if cellRoot(x.Addr) == cell && strings.HasPrefix(accPath, cellPath(x.Addr)) {
+									self := false
+									for w := range eng.Slice(x.Val, throughBuiltins) {
+										if ld, ok := w.(*ssa.UnOp); ok && ld.Op == token.MUL && cellRoot(ld.X) == cell {
+											self = true
+										}
+									}
+									if !self {
+										cleared = true
+									}
+								}
+							case ssa.CallInstruction:
+								cal := x.Common().StaticCallee()
+								if cal != nil && resettingMethods[cal.Name()] && len(x.Common().Args) > 0 && cellRoot(x.Common().Args[0]) == cell {
+									cleared = true
+								}
+							}
+						})
+						if !cleared {
+							all = false
+						}
+					})
+					if any && all {
+						reset = true
+					}
+				}
 				name := fv.Name() + accPath
 				c.Check(reset, R, eng.FuncName(parent)+"#"+name, anon.Pos(), "the flush clears "+name, "the flush closure hands "+name+" on but never clears it (no assignment of a fresh value, no Reset): the next block starts with the text already emitted and content is repeated in later chunks")
 			}
